@@ -157,6 +157,16 @@ fn check_case(ctx: &mut Ctx, c: &Case) {
             raw.push_bit(true);
             raw.pop_bit();
             raw.pop_bit();
+            let mut v = BitVector::from(raw);
+            enable_all(&mut v);
+            v
+        })));
+        routes.push(("RawVector push_int/pop_int history", guard(|| {
+            use simple_sds::raw_vector::{PopRaw, PushRaw, RawVector};
+            let mut raw = RawVector::new();
+            for b in ModelIter::new(&m) {
+                raw.push_bit(b);
+            }
             unsafe {
                 raw.push_int(!0u64, 64);
                 raw.pop_int(64);
